@@ -1,13 +1,29 @@
 # Tables consumed by tools/gen_manifest.py.  Only checks that are built and green on the clean tree
 # are listed in CLAIMED; everything else must have a reason in NOT_APPLICABLE.
 
-CLAIMED = {}
+CLAIMED = {
+    "C10": dict(
+        level="proof",
+        text="Exhaustive decision over a finite obligation set: every child-element declaration (successors tuple) of every "
+             "registered element class x every schema type declaring the registered tag x every child tag, on every sibling "
+             "context made of the schema-required elements plus up to 2 (quick) / 3 (thorough) further siblings and the "
+             "all-later / all-earlier / all-permitted families; the abstract inserter (semantics recognised from xmlchemy.py on "
+             "every run) must land on a position the content-model automaton accepts. Also: every hand-written insertion site "
+             "(append/insert/addprevious/addnext/insert_element_before), get_or_add overrides guarded, choice groups equal to "
+             "the schema choice, and the structural shape of the generic mechanism (get-or-add guarded, remove removes all, "
+             "change-to removes the group then adds). The bound is sufficient because all content models in scope are "
+             "single-occurrence (checked per type each run). NOT decided: cardinality under histories of several additions.",
+        technique="static analysis: declaration tables x XSD content-model automata (language membership over enumerated "
+                  "sibling contexts), structural AST recognition of the insertion mechanism, typed call-site analysis of raw lxml insertions",
+        design="DESIGN.md §4 C10, appendix B.1-B.2",
+    ),
+}
 
 _NOT_BUILT = "decidable structural clause designed in DESIGN.md but its checker is not built yet"
 
 NOT_APPLICABLE = {
     "C01": _NOT_BUILT, "C02": _NOT_BUILT, "C03": _NOT_BUILT, "C04": _NOT_BUILT, "C05": _NOT_BUILT,
-    "C06": _NOT_BUILT, "C07": _NOT_BUILT, "C08": _NOT_BUILT, "C09": _NOT_BUILT, "C10": _NOT_BUILT,
+    "C06": _NOT_BUILT, "C07": _NOT_BUILT, "C08": _NOT_BUILT, "C09": _NOT_BUILT,
     "C11": _NOT_BUILT, "C12": _NOT_BUILT, "C13": _NOT_BUILT, "C14": _NOT_BUILT, "C15": _NOT_BUILT,
     "C16": _NOT_BUILT, "C17": _NOT_BUILT, "C18": _NOT_BUILT, "C20": _NOT_BUILT,
     "C19": "part-name arithmetic is an equation between values of pure string functions (posixpath "
